@@ -170,6 +170,7 @@ fn cmd_sys(kv: &HashMap<String, String>) -> i32 {
     for _ in 0..threads.min(scenarios.len()).max(1) {
         let q = queue.clone();
         let sc = scenarios.clone();
+        let rd = replay_dir.clone();
         handles.push(std::thread::spawn(move || loop {
             let i = {
                 let mut g = q.lock().unwrap();
@@ -181,7 +182,13 @@ fn cmd_sys(kv: &HashMap<String, String>) -> i32 {
                 break;
             }
             let limit = sc[i].label.split("watchdog=").nth(1).and_then(|x| x.trim().parse::<u64>().ok()).unwrap_or(120);
+            // the history in flight is on disk while it runs: if the whole process dies (a panic that
+            // cannot unwind aborts it), tools/check finds the histories that were running and re-runs
+            // each in a process of its own to find the one that kills it
+            let inflight = format!("{}/inflight-{}.script", rd, i);
+            std::fs::write(&inflight, format!("# scenario: {}\n{}", sc[i].label, sys::script_to_text(&sc[i].ops))).ok();
             let (res, st) = run_script_watchdog("sys", sc[i].ops.clone(), mask, limit);
+            std::fs::remove_file(&inflight).ok();
             q.lock().unwrap().1.push((i, res, st));
         }));
     }
